@@ -157,6 +157,8 @@ func (c SeriesCheck) Check(ctx context.Context, entry discovery.Entry, entries [
 		}
 
 		done[selector.String()] = true
+		// Problems reported for other selectors say nothing about this one.
+		problemsBefore := len(problems)
 
 		if isDisabled(entry.Rule, selector) {
 			done[selector.String()] = true
@@ -414,7 +416,7 @@ func (c SeriesCheck) Check(ctx context.Context, entry discovery.Entry, entries [
 				slog.Debug("No historical series with label used for the query", slog.String("check", c.Reporter()), slog.String("selector", (&l).String()), slog.String("label", name))
 			}
 		}
-		if len(problems) > 0 {
+		if len(problems) > problemsBefore {
 			continue
 		}
 
@@ -627,7 +629,7 @@ func (c SeriesCheck) Check(ctx context.Context, entry discovery.Entry, entries [
 				)
 			}
 		}
-		if len(problems) > 0 {
+		if len(problems) > problemsBefore {
 			continue
 		}
 
